@@ -449,6 +449,18 @@ def splitAndX : List UStmt → Option (List UStmt)
     the AndX stanza (which must be there: `Marshal` puts the two AndX words first), otherwise all of it -/
 def bodyU (c : Cmd) : Option (List UStmt) := if c.isAndX then splitAndX c.unmarshal else some c.unmarshal
 
+/-- a nested value decoded from the *whole* block right behind `offset = 0` (`offset = 0; bytesRead, err =
+    c.F.Unmarshal(blk)`) is decoded from `blk[offset:]`: the two slice expressions denote the same bytes there
+    (`go_normWhole`, Lemmas/SmbUnmarshal.lean).  The static predicates read the unmarshal program in this normal form;
+    a whole-block decode anywhere else stays what it is (and outside every fragment). -/
+def normWhole : List UStmt → List UStmt
+  | .resetOffset :: .readSub b f t none true ck st :: r => .resetOffset :: .readSub b f t none false ck st :: normWhole r
+  | s :: r => s :: normWhole r
+  | [] => []
+
+/-- `bodyU` in the normal form the layout functions read -/
+def bodyN (c : Cmd) : Option (List UStmt) := (bodyU c).map normWhole
+
 /-- C04 static predicate: both programs are straight-line, describe the same slots per block in the
     same order (`mirrorSlots`), and the unmarshal program of an AndX command consumes the AndX words
     the marshal prologue emits before it reads the first field (`bodyU`); moreover — the side conditions without which the round trip is not a theorem —
@@ -456,7 +468,7 @@ def bodyU (c : Cmd) : Option (List UStmt) := if c.isAndX then splitAndX c.unmars
     discipline, reads lengths before the buffers they describe, guards no more than it reads
     (`okU`), and every declared field is on the wire. -/
 def Mirror (c : Cmd) : Bool :=
-  match bodyU c with
+  match bodyN c with
   | none => false
   | some body =>
     match layoutM c.marshal, layoutU body with
